@@ -212,15 +212,15 @@ Proof. unfold under_cls. apply existsb_app. Qed.
    exception_only view on a non-exception context registers nothing (ConfigurationError) *)
 Theorem exception_only_split P names nm d c xonly isexc :
   effective_ctx P nm d = (c, xonly, isexc) ->
-  make names (args_kw (with_ctx (d_args d) c)) <> None ->
+  make names (args_kw (with_ctx (forwarded_args P (d_dir d) (d_args d)) c)) <> None ->
   let regs := regs_of_decl P names nm d in
   under_cls view_classifier regs = negb xonly
   /\ under_cls exc_classifier_id regs = isexc && negb (xonly && negb isexc)
   /\ (xonly = true -> isexc = false -> regs = []).
 Proof.
   intros He Hm regs. subst regs. unfold regs_of_decl. rewrite He.
-  assert (H0 : forall cls, reg_of_args names cls (with_ctx (d_args d) c) <> None).
-  { intros cls. unfold reg_of_args. destruct (make names (args_kw (with_ctx (d_args d) c))); [discriminate|congruence]. }
+  assert (H0 : forall cls, reg_of_args names cls (with_ctx (forwarded_args P (d_dir d) (d_args d)) c) <> None).
+  { intros cls. unfold reg_of_args. destruct (make names (args_kw (with_ctx (forwarded_args P (d_dir d) (d_args d)) c))); [discriminate|congruence]. }
   destruct xonly, isexc; simpl; rewrite ?app_nil_r, ?under_cls_app, ?under_cls_opt;
     repeat match goal with
     | |- context [reg_of_args names ?cls ?a] =>
